@@ -361,8 +361,19 @@ pub fn gen(rng: &mut Rng, focus: Focus) -> ClientScn {
             c.start_ms = *rng.pick(&[0u64, 0, 0, 70, 200, 365, 380, 400, 440, 600, 730]) * 86_400_000;
         }
         plans.clear();
-        plans.push(vec![]);
-        plans.push(vec![]);
+        for _ in 0..2 {
+            // mostly never answered; sometimes answered months later — at, just before or just
+            // after the instants at which the call's year-long timers fire (and, when the clock is
+            // stepped across such an instant, inside the step: the reply and the due timer then
+            // wait for the dispatch together)
+            if rng.chance(350) {
+                const H: u64 = 3_600_000;
+                let after = *rng.pick(&[200 * 24 * H, 364 * 24 * H + 12 * H, 365 * 24 * H - H, 365 * 24 * H, 365 * 24 * H + H, 399 * 24 * H + 12 * H, 400 * 24 * H, 729 * 24 * H + 12 * H]);
+                plans.push(vec![ReplyScn { when: When::After(after), id: IdKind::Same, err: rng.chance(150) }]);
+            } else {
+                plans.push(vec![]);
+            }
+        }
         stalls.clear();
         unsolicited.clear();
         drop_handles_at = None;
